@@ -47,6 +47,9 @@ def spellings(v):
         out.append(("raw_sq", "r'" + v + "'"))
     if "{" not in v and "}" not in v and '"' not in v and "\\" not in v:
         out.append(("fstring_fragment", 'f"' + v + '"'))
+    if ("{" in v or "}" in v) and '"' not in v and "\\" not in v:
+        # braces stand for themselves when doubled; with no interpolation the f-string is one string value
+        out.append(("fstring_braces", 'f"' + v.replace("{", "{{").replace("}", "}}") + '"'))
     out.append(("all_unicode_escapes", '"' + "".join("\\u{%x}" % ord(ch) for ch in v) + '"'))
     return out
 
